@@ -1277,7 +1277,8 @@ class C10Check(StreamCheckBase):
             ctx.log.add("one-by-one", dec_1)
             if dec_1 is None:
                 aborted = True
-            elif not same(utils_k, self._utils):
+            elif not same(utils_k, self._utils) and sc["subject"]["cls"] != "PeriodicSampling":
+                # (PeriodicSampling's utilities are its decisions, not an input to a manager: always judged)
                 # the utility stream itself differs in the last bits between batched and
                 # single evaluation (BLAS kernels): the managers saw different inputs, so
                 # their decisions are not comparable -- no verdict
